@@ -73,6 +73,9 @@ pub enum FinOp {
     FinalizeAgain(Sel),
     /// `new_cyclic` with a closure that stores the weak into the new object
     NewCyclic,
+    /// upgrade the weak in own weak slot `ws` and store the result into own slot `s`: the object
+    /// makes *itself* (or a neighbour) part of a cycle that nothing live refers to
+    UpgradeOwnWeakInto(u8, u8),
 }
 
 /// Operations a cleaning action can perform.
